@@ -4,7 +4,7 @@ out="$1"; shift
 cd "$(dirname "$0")/.." || exit 2
 mkdir -p "$out"
 ids="$@"
-[ -z "$ids" ] && ids=$(ls seeded | grep -v INDEX)
+[ -z "$ids" ] && ids=$(ls seeded | grep -v INDEX)  # hidden dirs are not listed
 for id in $ids; do
   prop=$(echo $id | cut -c1-3)
   tools/seedrun.py seeded/$id $prop --checks all --skip-tests > "$out/$id.json" 2>&1
